@@ -168,6 +168,25 @@ func (s *c08Server) restartServer() {
 	s.do(func() { s.restartLocked() })
 }
 
+// realNow reads the REAL clock (the helper goroutine is outside the bubbles).
+func (s *c08Server) realNow() (t time.Time) {
+	s.do(func() { t = time.Now() })
+	return
+}
+
+// c08Stall: go-redis' socket deadlines are real time (3 s read/write, 4 s pool,
+// 5 s dial). On an overloaded machine a reply can miss its deadline; go-redis
+// then sends the command again and the (non-idempotent) script runs twice.
+// That is a fault of the environment, not a behaviour under the statement: a
+// case in which a library call took longer than this in real time is counted
+// as excluded and not judged.
+const c08Stall = 2 * time.Second
+
+// c08Seq numbers the cases of this process; it is part of every Redis key so
+// that a command of an earlier, stalled case that the server executes late
+// cannot touch the keys of the current case. Not part of any verdict.
+var c08Seq int
+
 func (s *c08Server) evalCount(key string) int {
 	s.mu.Lock()
 	defer s.mu.Unlock()
